@@ -244,6 +244,12 @@ impl Watch {
         }
 
         let mut accepted = !delivered.is_empty();
+        // role `Any` has no receive gate, but the side it is acting as still decides what it may
+        // act upon: a client never answers a PINGREQ
+        if kind == PINGREQ && self.m.is_client && st_before != St::Disc && sends.iter().any(|p| p.kind == PINGRESP) {
+            self.flag(&["C17"], "forbidden-kind-acted-upon/PINGREQ", format!("{what}: an endpoint acting as client answered a PINGREQ: {}", evs_short(evs)));
+            return;
+        }
         match kind {
             CONNECT => {
                 if st_before != St::Disc {
